@@ -262,7 +262,7 @@ fn run(ctx: &mut Ctx) {
         ctx.distinct_enum += acc;
     });
     // ---- other lengths and non-ASCII
-    let n = ctx.tier.pick(200_000, 3_000_000);
+    let n = ctx.tier.pick(200_000, 20_000_000);
     ctx.cases("oddnames", n, |ctx, _i, rng| {
         ctx.eval();
         let base = *rng.pick(&["C09A", "B1212", "PC00", "ATAT", "TRBA", "MCVX", "CBF1", "SEQ2", "C18V", "PC91", "B09F"]);
@@ -633,7 +633,7 @@ fn run(ctx: &mut Ctx) {
     });
     // ---- the maps asked from 8 threads at once, each thread for its own run number (runs on both sides of every map
     // epoch): every answer against the reference table of its run. State shared between threads must be updated as one.
-    ctx.cases("concurrent", ctx.tier.pick(8, 64), |ctx, i, rng| {
+    ctx.cases("concurrent", ctx.tier.pick(8, 128), |ctx, i, rng| {
         let runs8: Vec<u32> = vec![5000, 10418, u32::MAX, 12000, 4418, 10417, 20000, 11500];
         let a = AfterId::try_from(['A', 'B', 'C', 'D'][(i % 4) as usize]).unwrap();
         let pc = PadChannelId::try_from(1 + rng.below(72) as u16).unwrap();
